@@ -537,20 +537,32 @@ fn fold_constraint_set(
                 extensible: _,
             }),
         ) => return Ok(None),
+        // The values of a contained subtype are not looked up: the other operand alone bounds the
+        // result only where the contained subtype can merely take values away
         (
             SubtypeElements::ContainedSubtype {
                 subtype: _,
                 extensible: _,
             },
             Some(c),
-        )
-        | (
+        ) => {
+            return Ok(match set.operator {
+                SetOperator::Intersection => Some(c.clone()),
+                SetOperator::Union | SetOperator::Except => None,
+            })
+        }
+        (
             c,
             Some(SubtypeElements::ContainedSubtype {
                 subtype: _,
                 extensible: _,
             }),
-        ) => return Ok(Some(c.clone())),
+        ) => {
+            return Ok(match set.operator {
+                SetOperator::Intersection | SetOperator::Except => Some(c.clone()),
+                SetOperator::Union => None,
+            })
+        }
         (SubtypeElements::PermittedAlphabet(elem_or_set), None)
         | (SubtypeElements::SizeConstraint(elem_or_set), None) => {
             return match &**elem_or_set {
